@@ -142,6 +142,10 @@ func (C09Mon) After(w *core.World, st *core.Step) {
 	}
 	if !staged {
 		// type conflicts make the restore impossible as stated: outside the domain
+		if HasConflict(idx0) {
+			c.Count("C09.type-conflict")
+			return
+		}
 		for p := range sel {
 			if IsDirOnDisk(st.Pre, p) {
 				c.Count("C09.type-conflict")
